@@ -139,8 +139,11 @@ def reviewed_side_conditions(ctx):
                     for x in sir.walk(clo[0]["body"]):
                         if x.get("k") == "binary" and x["op"] == "==" and x["r"].get("t") == "char" and sir.expr_str(x["l"]) == "ch":
                             until.add(x["r"]["v"])
-                        if x.get("k") == "call" and sir.call_name(x) == "is_start_char":
-                            until.add("@start")
+                        if x.get("k") in ("call", "mcall") and x.get("args") and any(sir.expr_str(a) == "ch" for a in x["args"]):
+                            nm = (sir.call_name(x) or x.get("m") or "?").split("::")[-1]
+                            until.add("@start" if nm == "is_start_char" else "@" + nm)
+                        if x.get("k") == "mcall" and sir.expr_str(x["recv"]) == "ch":
+                            until.add("@ch." + x["m"])
                         if x.get("k") == "binary" and x["op"] == "!=" and "peek" in sir.expr_str(x["l"]) and "'<'" in sir.expr_str(x["r"]):
                             pass
         ok = first_ok and only_exit and until and until <= handled
@@ -185,6 +188,8 @@ def panic_sites(mir):
                 cat = "panic"
             elif re.search(r"Option::unwrap$|Result::unwrap$|::expect$|unwrap_failed|expect_failed", g):
                 cat = "unwrap"
+            elif re.search(r"num::<impl [iu](8|16|32|64|128|size)>::(abs|pow|div_euclid|rem_euclid|next_power_of_two|ilog2?|ilog10|isqrt|strict_\w+)$", c["callee"]):
+                cat = "intpanic:" + g.split("::")[-1]
             elif re.search(r"Index(Mut)?::index(_mut)?$|::index$|::index_mut$", g):
                 t = (c["argtys"][0] if c["argtys"] else "?")
                 t = re.sub(r"<.*", "", t.replace("&mut ", "").replace("&", ""))
@@ -313,6 +318,26 @@ def side_conditions_rule(ctx):
                               witness=None if how else "any input reaching this statement with `%s` unset panics" % place))
     if n_guarded < 9:
         obs.append(ob("C01.floor/guarded-unwraps", False, "both crates", "only %d guarded unwraps recognised (floor 9)" % n_guarded))
+    # get_var_name: every table is indexed modulo its own length
+    gv = [g for g in ctx.tc.fns if g.name == "get_var_name" and g.body]
+    if gv:
+        g = gv[0]
+        idxs = [n for n in sir.walk(g.body) if n.get("k") == "index"]
+        probs = []
+        for n in idxs:
+            base = sir.expr_str(n["base"])
+            ix = n["idx"]
+            ok1 = ix.get("k") == "binary" and ix.get("op") == "%" and sir.expr_str(ix["r"]).replace(" ", "") == base + ".len()"
+            if not ok1:
+                probs.append("`%s[%s]`: the index is not reduced modulo `%s.len()`" % (base, sir.expr_str(ix), base))
+        obs.append(ob("C01.panic/side/table-index", bool(idxs) and not probs, ctx.where(g), "; ".join(probs) if probs else "%d table lookups, each `T[i %% T.len()]` with the same table" % len(idxs),
+                      witness=None if not probs else "a template with about 1900 bound elements indexes past the end of the shorter table"))
+    # scopes[index] in the generator relies on the parser's and the generator's scope stacks being mirrored (C05.mirror)
+    from rules.c05 import check_mirror
+    for x in check_mirror(ctx):
+        x = dict(x)
+        x["key"] = x["key"].replace("C05.mirror", "C01.panic/side/mirror").replace("C05.", "C01.panic/side/c05.")
+        obs.append(x)
     # ParseState::new: the truncation index is moved back to a character boundary before slicing
     f = [g for g in ctx.tc.fns if g.base == "ParseState" and g.name == "new" and g.body]
     if f:
